@@ -49,3 +49,15 @@ def acct(tier='quick'):
     return Ob('acct.body_data', 'tx/acct.c', units=TX_UNITS, models=['@libc_model.c'], remove=TX_RM, unwind=6, unwindset=['strlen.0:40'], restrict_by=[(r'callback|->fn|\\.fn', 'cb_req,cb_res')], object_bits=11, tier=tier, timeout=600, mem_gb=8,
               statement='entity length == bytes delivered to body callbacks, response message length == bytes taken, end-of-body marker once and last, every pointer/len handed out lies inside the caller buffer',
               bounds='3 data calls (direction, offset and length <= 4 symbolic) + the two end-of-body calls, no content coding')
+
+def pairing(tier='quick'):
+    obs = []
+    for f, nm in ((1, 'tx_create'), (2, 'tx_freed'), (3, 'RES_IDLE')):
+        for size in (0, 1, 2, 3):
+            obs.append(Ob('pair.%s.size%d' % (nm, size), 'tx/pairing.c', units=TX_UNITS, models=['@libc_model.c'], remove=TX_RM + ['htp_hook_run_all'], defines={'FUNC': f, 'SIZE': size, 'MAXL': 3}, unwind=8, unwindset=['strlen.0:40'],
+                          object_bits=11, tier=tier, timeout=600, mem_gb=8,
+                          statement={1: 'htp_connp_tx_create appends at the tail with index == old size, refuses iff max_tx>0 and size>max_tx, sets PIPELINED iff size > out_next_tx_index, new tx is blank',
+                                     2: 'htp_connp_tx_freed removes exactly the leading NULL slots and shifts out_next_tx_index by the same count (denotes the same transaction)',
+                                     3: 'htp_connp_RES_IDLE attaches the response to slot out_next_tx_index (or a fresh placeholder) and advances the index once'}[f],
+                          bounds='real list with %d slots, each a live or destroyed transaction (symbolic), out_next_tx_index / max_tx / flags symbolic' % size))
+    return obs
